@@ -30,6 +30,8 @@ SECP256K1_INLINE static int secp256k1_fe_equal(const secp256k1_fe *a, const secp
     SECP256K1_FE_VERIFY_MAGNITUDE(b, 31);
 
     secp256k1_fe_negate(&na, a, 1);
+    /* -a has magnitude 2: reduce it to 1 so that adding b (magnitude up to 31) stays within 32. */
+    secp256k1_fe_normalize_weak(&na);
     secp256k1_fe_add(&na, b);
     return secp256k1_fe_normalizes_to_zero(&na);
 }
